@@ -20,6 +20,11 @@ pub mod cases_recode;
 pub mod cases_fields;
 #[cfg(not(kani))]
 pub mod cases_hash;
+#[cfg(not(kani))]
+pub mod cases_schemes;
+
+#[cfg(not(kani))]
+pub mod cases_curves;
 
 #[cfg(kani)]
 pub mod kani_harnesses;
@@ -38,9 +43,11 @@ pub struct Case {
 #[cfg(not(kani))]
 pub fn all_cases() -> Vec<Case> {
     let mut v = Vec::new();
+    cases_curves::register(&mut v);
     cases_gf255::register(&mut v);
     cases_recode::register(&mut v);
     cases_fields::register(&mut v);
     cases_hash::register(&mut v);
+    cases_schemes::register(&mut v);
     v
 }
